@@ -25,6 +25,7 @@ import (
 	"runtime/debug"
 	"strings"
 	"sync"
+	"syscall"
 	"testing"
 	"testing/synctest"
 	"time"
@@ -1113,13 +1114,19 @@ func runTamperedResponse(c *mon.Case, r *mon.Run, sc *srvCtx, cf base.ClientFact
 
 // ---------------------------------------------------------------- part E: histories
 
-const histOps = "CIR68X" // connect, server issues ticket, restart factory, +6 days, +8 days, corrupt the ticket file entry
+// connect, server issues ticket, restart factory, +6 days, +8 days, corrupt
+// the ticket file entry; connection attempts that fail: F the wire breaks while
+// the client's first message is being written, after the first 112 bytes (a
+// ticket, if one is used, has gone out whole); f the same before byte 112; S the
+// whole message goes out and the server never answers
+const histOps = "CIR68XFfS"
+const histOpsCore = "CIR68X"
 
-func histString(idx, length int) string {
+func histString(ops string, idx, length int) string {
 	b := make([]byte, length)
 	for i := length - 1; i >= 0; i-- {
-		b[i] = histOps[idx%len(histOps)]
-		idx /= len(histOps)
+		b[i] = ops[idx%len(ops)]
+		idx /= len(ops)
 	}
 	return string(b)
 }
@@ -1255,6 +1262,80 @@ func runHistory(c *mon.Case, r *mon.Run, base string, hist string, seed uint64) 
 			if typ != expect {
 				r.Count("model_surprise_"+expect+"_expected_"+typ+"_seen", 1)
 			}
+		case 'F', 'f', 'S':
+			// a connection attempt that fails under the client's hands
+			if open != nil {
+				open.close()
+				open = nil
+			}
+			cw, sw := memwire.Pair(memwire.Options{Keep: true})
+			cw.SetAddrs(&net.TCPAddr{IP: net.IPv4(192, 0, 2, 1), Port: 40001}, addr)
+			sw.SetAddrs(addr, &net.TCPAddr{IP: net.IPv4(192, 0, 2, 1), Port: 40001})
+			var at int64 = -1
+			switch op {
+			case 'F':
+				at = int64(ss.TicketLen + []int{0, 1, 16, 80, 150}[rng.IntN(5)])
+			case 'f':
+				at = int64([]int{0, 1, 50, ss.TicketLen - 1}[rng.IntN(4)])
+			}
+			if at >= 0 {
+				cw.Out().SetWriteFault(at, syscall.EPIPE)
+			}
+			go func() { // the far end reads and says nothing
+				b := make([]byte, 4096)
+				for {
+					if _, err := sw.Read(b); err != nil {
+						return
+					}
+				}
+			}()
+			res := <-startDial(cf, sc.pw, cw) // at the latest when the client's (virtual) deadline fires
+			_, _, sent := cw.Out().Snapshot()
+			cw.Close()
+			sw.Close()
+			r.Count("history_failed_attempts_"+string(op), 1)
+			if res.panic != "" {
+				c.Violation("dial-panic/failed-attempt", fmt.Sprintf("history %s step %d: %s", hist, step, res.panic), wit(step))
+				continue
+			}
+			id, reuse, known := sc.srv.NotePartial(sent)
+			if !res.failed() {
+				res.conn.Close()
+				// (a ticket handshake has no server response to wait for: with a
+				// ticket Dial legitimately returns once its message is out whole)
+				if faulted := at >= 0 && int64(len(sent)) >= at; !known || faulted {
+					c.Violation("handshake-completed/without-a-server-response", fmt.Sprintf("history %s step %d: Dial returned success although the server never answered (%d bytes out, ticket handshake: %v)", hist, step, len(sent), known), wit(step))
+					continue
+				}
+				r.Count("history_ticket_dial_returns_without_response", 1)
+			}
+			tag := fmt.Sprintf("failed-attempt(%d bytes out)", len(sent))
+			if known {
+				tag = fmt.Sprintf("failed-attempt(ticket #%d out)", id)
+				r.Count("tickets_presented", 1)
+				r.Count("tickets_presented_in_failed_attempts", 1)
+				if reuse {
+					where := "same-factory"
+					if presentedIn[id] != restarts {
+						where = "after-restart"
+					}
+					r.Count("ticket_reuse", 1)
+					c.Violation("ticket-presented-twice/"+where, fmt.Sprintf("history %s step %d: ticket #%d went out a second time, in a connection attempt that then failed (seen so far: %s)", hist, step, id, strings.Join(seen, ",")), wit(step))
+				} else {
+					presentedIn[id] = restarts
+				}
+				// an implementation that uses tickets whenever it may has used this one up
+				if mem != nil && mem.id == id {
+					mem, file = nil, nil
+					lost = "used-ticket"
+				}
+			} else if len(sent) > 0 && mem != nil {
+				// part of the first message went out; whether a ticket counts as used
+				// by that is left to the implementation
+				mem, file = nil, nil
+				lost = "used-ticket"
+			}
+			seen = append(seen, tag)
 		case 'I':
 			if open == nil {
 				continue
@@ -1328,7 +1409,7 @@ func runHistory(c *mon.Case, r *mon.Run, base string, hist string, seed uint64) 
 		r.Distinct("type_sequences", strings.Join(seen, ","))
 	}
 	if connects >= 2 {
-		r.Sample(map[string]any{"part": "history", "history": hist, "ops": "C connect, I server issues ticket, R restart factory from the same state dir, 6/8 advance virtual clock by 6/8 days, X corrupt the ticket file entry", "handshakes_seen_by_server": seen})
+		r.Sample(map[string]any{"part": "history", "history": hist, "ops": "C connect, I server issues ticket, R restart factory from the same state dir, 6/8 advance virtual clock by 6/8 days, X corrupt the ticket file entry, F/f connection attempt whose first write fails after/before byte 112, S attempt the server never answers", "handshakes_seen_by_server": seen})
 	}
 }
 
@@ -1481,7 +1562,7 @@ func TestCheck(t *testing.T) {
 		"(B) streams: grid of 11 chunk policies x 3 scenarios (client first / server payload, ticket and seed coalesced with the response / long idle gaps), one UniformDH and one ticket connection each, concurrent reader and writer goroutines on the client, PRF streams both ways, server packets of varied payload/padding split with padding-only, seed and ticket packets interleaved. Stream equality is judged at quiescence AFTER the reference server has sent one further padding-only packet: unlike C01 the statement does not promise delivery without further traffic, and this client decodes bytes that arrived together with the handshake response only on its next network read. "+
 		"(C) single-bit modification of one packet (9 classes: payload of 5 sizes, padding-only, full MTU, NewTicket, PRNG seed; regions MAC / 3 header fields / body) followed by > 2*1448 bytes of valid packets: Read must have reported an error at quiescence and everything delivered up to and including the failing Read is a prefix of what was sent, carried by packets before the damaged one (the monitor stops reading at the first error; what a caller that ignores the error would get is not judged). "+
 		"(D) client configured with a different k_B (random / one bit; silent conforming server, and a peer answering under its own secret): Dial must fail (60 s virtual deadline); single-bit flips of Y, padding, M_S, MAC_S and truncation+EOF of the response (PRNG offsets and each of the last 33 offsets): Dial must fail (an error, not a panic). "+
-		"(E) histories over {C connect, I server issues ticket on the open connection, R restart: new ClientFactory on the same state dir, 6/8 advance the virtual clock 6/8 days, X make the ticket file entry undecodable} of length <= 5 (plus PRNG ones of length 6..9): every connect must complete and move data, the server's log must never show a ticket twice, an expired ticket, or an unauthenticated hello (so an absent/used/expired/corrupt ticket means UniformDH). A valid ticket MAY be used; that it is used is only a positive control. "+
+		"(E) histories over {C connect, I server issues ticket on the open connection, R restart: new ClientFactory on the same state dir, 6/8 advance the virtual clock 6/8 days, X make the ticket file entry undecodable, F/f a connection attempt whose first write fails after/before byte 112 (the ticket has / has not gone out whole), S an attempt the server never answers} of length <= 5 (plus PRNG ones of length 6..9): every connect must complete and move data, neither the server's log nor the bytes of failed attempts may ever show a ticket twice, an expired ticket, or an unauthenticated hello (so an absent/used/expired/corrupt ticket means UniformDH). A valid ticket MAY be used; that it is used is only a positive control. "+
 		"(F) 2..6 Dials at the same time on one factory holding one ticket for that server: all complete and move data, the ticket shows up in at most one handshake. "+
 		"Non-trivial = a connection (history / group) that ran to its verdict; distinct = (part, parameters).")
 	base := o4.StateDir("c15")
@@ -1494,7 +1575,7 @@ func TestCheck(t *testing.T) {
 			tailPads = append(tailPads, p)
 		}
 		fullPads = []int{0, 1, 2, 15, 16, 17, 31, 32, 33, 100, 500, 1000, 1307, 1308}
-		r.Note("exhaustive_part", "(A) every response padding length 0..1308 x every cut offset in the last 48 bytes of the response; every cut offset of the whole response for paddings {0,1,2,15,16,17,31,32,33,100,500,1000,1307,1308}; (D) every bit of Y, M_S and MAC_S of one response per padding class; (C) every bit of one packet of each of the 9 classes; (E) all 9330 histories of length <= 5 over 6 operations")
+		r.Note("exhaustive_part", "(A) every response padding length 0..1308 x every cut offset in the last 48 bytes of the response; every cut offset of the whole response for paddings {0,1,2,15,16,17,31,32,33,100,500,1000,1307,1308}; (D) every bit of Y, M_S and MAC_S of one response per padding class; (C) every bit of one packet of each of the 9 classes; (E) all 7380 histories of length <= 4 over 9 operations, all 810 of length 4..5 that start with connect, issue, all 7776 of length 5 over the 6 operations without failed attempts")
 	} else {
 		tailPads = []int{0, 1, 2, 15, 16, 17, 1307, 1308}
 		rng := mon.NewRand(r.Sub("tailpads"))
@@ -1502,7 +1583,7 @@ func TestCheck(t *testing.T) {
 			tailPads = append(tailPads, 3+rng.IntN(maxPad-4))
 		}
 		fullPads = []int{0, 17}
-		r.Note("exhaustive_part", "(A) every cut offset in the last 48 bytes of the response for paddings {0,1,2,15,16,17,1307,1308} and 16 PRNG paddings; every cut offset of the whole response for paddings {0,17}; (D) every bit of M_S and MAC_S; (C) every bit of MAC and header of 3 packet classes; (E) all 258 histories of length <= 3 and all 252 histories of length 4 and 5 that start with connect, issue")
+		r.Note("exhaustive_part", "(A) every cut offset in the last 48 bytes of the response for paddings {0,1,2,15,16,17,1307,1308} and 16 PRNG paddings; every cut offset of the whole response for paddings {0,17}; (D) every bit of M_S and MAC_S; (C) every bit of MAC and header of 3 packet classes; (E) all 819 histories of length <= 3 over 9 operations and all 810 histories of length 4 and 5 that start with connect, issue")
 	}
 	splitBatch := func(name string, specs func() []splitSpec) {
 		r.Bubble(name, func(c *mon.Case) {
@@ -1776,34 +1857,45 @@ func TestCheck(t *testing.T) {
 	// ---------------- (E)
 	var hists []string
 	total := 0
-	for length := 1; length <= 5; length++ {
+	pow := func(b, e int) int {
 		n := 1
-		for i := 0; i < length; i++ {
-			n *= len(histOps)
+		for i := 0; i < e; i++ {
+			n *= b
 		}
+		return n
+	}
+	for length := 1; length <= 5; length++ {
+		n := pow(len(histOps), length)
 		total += n
-		if r.Thorough() || length <= 3 {
+		if length <= r.Pick(3, 4) {
 			for idx := 0; idx < n; idx++ {
-				hists = append(hists, histString(idx, length))
+				hists = append(hists, histString(histOps, idx, length))
 			}
 			continue
 		}
-		// quick tier, lengths 4 and 5: every history that starts with "CI"
-		// (connect, ticket issued) plus a PRNG sample of the rest
-		for idx := 0; idx < n/36; idx++ {
-			hists = append(hists, "CI"+histString(idx, length-2))
+		// beyond: every history that starts with "CI" (connect, ticket
+		// issued), a PRNG sample of the rest, and in the thorough tier every
+		// history of length 5 over the six operations without failed attempts
+		for idx := 0; idx < pow(len(histOps), length-2); idx++ {
+			hists = append(hists, "CI"+histString(histOps, idx, length-2))
 		}
 		rng := mon.NewRand(r.Sub("hist", length))
-		for k := 0; k < 40; k++ {
-			hists = append(hists, histString(rng.IntN(n), length))
+		for k := 0; k < r.Pick(40, 2000); k++ {
+			hists = append(hists, histString(histOps, rng.IntN(n), length))
+		}
+		if r.Thorough() {
+			for idx := 0; idx < pow(len(histOpsCore), length); idx++ {
+				hists = append(hists, histString(histOpsCore, idx, length))
+			}
 		}
 	}
 	// a few longer ones that exercise use -> reissue -> restart chains
-	hists = append(hists, "CICICRCIRC", "CIRCIRCIRC", "CI6RC", "CIR8C", "CIXRC", "CIRXC", "CIXC", "CICRC", "CIRCRC", "CI6C6IRC8C")
+	hists = append(hists, "CICICRCIRC", "CIRCIRCIRC", "CI6RC", "CIR8C", "CIXRC", "CIRXC", "CIXC", "CICRC", "CIRCRC", "CI6C6IRC8C",
+		"CIFCIFRC", "CIRFC", "CIFRC", "CIfCIfRC", "CISCISRC", "CIFFC", "CIFSC", "CIRFRC", "CIFCIC", "CIFIFC")
 	{
 		// PRNG histories of length 6..9, biased towards connect / issue
 		rng := mon.NewRand(r.Sub("hist-long"))
-		const biased = "CCCIIIRR68X"
+		const biased = "CCCIIIRR68XFFfS"
 		for k := 0; k < r.Pick(60, 1500); k++ {
 			b := make([]byte, 6+rng.IntN(4))
 			for i := range b {
